@@ -2,6 +2,9 @@
 import Y0.Model.Graph
 import Y0.Model.Expr
 import Y0.Model.Cg
+import Y0.Model.IdStar
+import Y0.Model.IdcStar
+import Y0.Spec.Fscm
 import Y0.Driver.Graph
 
 namespace Y0.Driver
@@ -41,6 +44,57 @@ def cgResultToSexp : Except Err (MG Var × Option Event) → Sexp
   | .ok (g, some ev) => tagged "ok" [cfGraphToSexp g, eventToSexp ev]
   | .error e => e.toSexp
 
+/-! ### `fscm_prob`: evaluate the SPECIFICATION (Y0/Spec/Fscm.lean) on an explicit model sent by the harness, so that the
+Python oracle (harness/oracles/cf_fscm.py) and the Lean definition of "probability of a counterfactual event" are compared
+on every run.  Model encoding:
+`(model (order…) ((pmf as (num den)…)…) ((v (pa…) (lat…) ((key… value)…))…))`, base values `((v x x')…)`. -/
+
+def ratOf? : Sexp → Option Rat
+  | .list [n, d] => do pure ((Int.ofNat (← asNat? n) : Rat) / (Int.ofNat (← asNat? d) : Rat))
+  | _ => none
+
+structure MechRow where
+  v : Nat
+  pa : List Nat
+  lat : List Nat
+  table : List (List Nat × Nat)
+
+def mechOf? : Sexp → Option MechRow
+  | .list [v, pa, lat, .list rows] => do
+      let rows ← rows.mapM fun r => match r with
+        | .list [k, x] => do pure (← asNats? k, ← asNat? x)
+        | _ => none
+      pure { v := ← asNat? v, pa := ← asNats? pa, lat := ← asNats? lat, table := rows }
+  | _ => none
+
+def modelOf? : Sexp → Option Fscm.Model
+  | .list [.atom "model", order, .list pmfs, .list mechs] => do
+      let order ← asNats? order
+      let pmfs ← pmfs.mapM fun p => match p with
+        | .list xs => xs.mapM ratOf?
+        | _ => none
+      let ms ← mechs.mapM mechOf?
+      let find (v : Nat) : Option MechRow := ms.find? (fun m => m.v == v)
+      pure { order := order, noise := pmfs,
+             pa := fun v => match find v with | some m => m.pa | none => [],
+             lat := fun v => match find v with | some m => m.lat | none => [],
+             f := fun v ps us => match find v with
+               | some m => match m.table.find? (fun r => r.1 == ps ++ us) with
+                 | some r => r.2
+                 | none => 0
+               | none => 0 }
+  | _ => none
+
+def baseValuesOf? : Sexp → Option Fscm.BaseValues
+  | .list rows => do
+      let rows ← rows.mapM fun r => match r with
+        | .list [v, x, x'] => do pure (← asNat? v, ← asNat? x, ← asNat? x')
+        | _ => none
+      pure fun n b => match rows.find? (fun r => r.1 == n) with
+        | some r => if b then r.2.2 else r.2.1
+        | none => 0
+  | _ => none
+
 def handleCf (op : String) (args : List Sexp) : Option Sexp := do
   match op, args with
   | "make_cg", [g, ev, rev, rot] =>
@@ -53,6 +107,29 @@ def handleCf (op : String) (args : List Sexp) : Option Sexp := do
             pure (cgResultToSexp (makeCounterfactualGraph (orderWorlds (← boolOf? rev) (← asNat? rot)) G e))
         | _ => none
       pure (tagged "ok" rs)
+  | "id_star_all", [g, ev, .list strategies] => do
+      let G ← parseGraph g
+      let e ← eventOf? ev
+      let rs ← strategies.mapM fun s => match s with
+        | .list [rev, rot, drev] => do
+            pure (exceptToSexp Codec.exprToSexp
+              (idStar (orderWorlds (← boolOf? rev) (← asNat? rot)) (orderDistrict (← boolOf? drev)) G e))
+        | _ => none
+      pure (tagged "ok" rs)
+  | "idc_star_all", [g, outs, conds, .list strategies] => do
+      let G ← parseGraph g
+      let o ← eventOf? outs
+      let c ← eventOf? conds
+      let rs ← strategies.mapM fun s => match s with
+        | .list [rev, rot, drev] => do
+            let d ← boolOf? drev
+            pure (exceptToSexp Codec.exprToSexp
+              (idcStar (orderWorlds (← boolOf? rev) (← asNat? rot)) (orderDistrict d) (orderDistrict d) G o c))
+        | _ => none
+      pure (tagged "ok" rs)
+  | "fscm_prob", [m, nu, ev] => do
+      let r := Fscm.probEvent (← modelOf? m) (← baseValuesOf? nu) (← eventOf? ev)
+      pure (tagged "ok" [.atom (toString r.num), .atom (toString r.den)])
   | "pw_graph", [g, ev] =>
       pure (tagged "ok" [cfGraphToSexp (makeParallelWorldsGraph (← parseGraph g)
         (sortWorlds (extractInterventions (← eventOf? ev).keys)))])
